@@ -9,10 +9,60 @@ import (
 	"strconv"
 	"sync"
 
+	"github.com/robertkrimen/otto"
+
 	"verif/harness/internal/c20"
 )
 
+// tour touches most built-in families; its result is deterministic, so every
+// concurrent execution must print the sequential answer.
+const tour = `
+var out = [];
+for (var i = 0; i < 30; i++) {
+  out.push(/a(b+)c/.exec("xxabbbc" + i)[1], "abc".replace(/b/g, "[" + i + "]"), new RegExp("x" + G + "_" + (i % 5), "gi").test("X" + G + "_" + (i % 5)), new RegExp("[a-" + String.fromCharCode(98 + (G + i) % 20) + "]+").exec("abcxyz")[0]);
+  out.push(JSON.stringify({k: [i, "s", null], d: new Date(86400000 * i).toISOString()}), JSON.parse('{"a":[1,2,{"b":' + i + '}]}').a[2].b);
+  out.push([5, 3, i % 7, 1].sort().join(), [1, 2, 3].map(function (x) { return x * i }).reduce(function (a, b) { return a + b }, 0));
+  out.push(Math.max(i, 3) + Math.floor(i / 3) + Math.pow(2, i % 10), (i * 1.5).toFixed(2), parseInt("1" + i, 8), ("" + i).charCodeAt(0));
+  out.push(encodeURIComponent("é" + i), "a,b,c".split(",").length, " t ".trim() + i, String.fromCharCode(65 + i % 26).toLowerCase());
+  out.push(Object.keys({a: 1, b: i}).join(), typeof Function.prototype.bind.call(function () {}, null), new Error("m" + i).message);
+}
+out.join("|");
+`
+
+func runTour(g int) string {
+	vm := otto.New()
+	vm.Set("G", g)
+	v, err := vm.Run(tour)
+	if err != nil {
+		return "ERR " + err.Error()
+	}
+	return v.String()
+
+}
+
 func main() {
+	// the concurrent executions come FIRST, on cold package-level state; each goroutine uses
+	// its own patterns/keys; the sequential reference is computed afterwards
+	var tg sync.WaitGroup
+	got := make([]string, 12)
+	for i := 0; i < 12; i++ {
+		tg.Add(1)
+		go func() {
+			defer tg.Done()
+			got[i] = runTour(i)
+			if again := runTour(i); again != got[i] {
+				got[i] = "DIFFERS"
+			}
+		}()
+	}
+	defer func() {
+		tg.Wait()
+		for i := range got {
+			if want := runTour(i); got[i] != want {
+				fmt.Fprintf(os.Stderr, "UNIT-ERROR tour %d: a runtime used concurrently with others computed a different result than alone\n", i)
+			}
+		}
+	}()
 	seed, _ := strconv.ParseInt(os.Args[1], 10, 64)
 	n, _ := strconv.Atoi(os.Args[2])
 	rounds, _ := strconv.Atoi(os.Args[3])
